@@ -14,7 +14,7 @@ import (
 
 func init() {
 	Register(&Property{ID: "C20", Run: runC20,
-		Rule: "one real engine (acceptor or initiator, HeartBtInt 1-60 s from the peer's Logon, the configuration or HeartBtIntOverride) logged on to the stub peer; 8-40 steps drawn from {peer silence of 0.1-5 intervals, in-sequence Heartbeat/TestRequest/application message, sequence gap, gap fill, engine-side application send}; timing oracle evaluated after every step; slow answers (up to 1.4 intervals) to an initiator's Logon; final phase in a fifth of the runs: the counterparty stops reading AND sending (writes on the connection block) - disconnect and OnLogout by 2.4 intervals, connection closed in the end; or (a quarter of the rest) a burst of 2-3 application messages in one read handled by an application that takes 0.3-2 intervals per callback, then silence, with the order in which the session loop serves its ready sources fixed per run by the simulator - OnLogout by 2.4 intervals after the last callback returned. Non-trivial: at least one timer-driven write (Heartbeat or TestRequest) happened or a TestRequest was answered; distinct: canonical trace hash"})
+		Rule: "one real engine (acceptor or initiator, HeartBtInt 1-60 s from the peer's Logon, the configuration or HeartBtIntOverride) logged on to the stub peer; 8-40 steps drawn from {peer silence of 0.1-5 intervals, in-sequence Heartbeat/TestRequest/application message, sequence gap, gap fill, engine-side application send}; timing oracle evaluated after every step; slow answers (up to 1.4 intervals) to an initiator's Logon; final phase in a fifth of the runs: the counterparty stops reading AND sending (writes on the connection block) - disconnect and OnLogout by 2.4 intervals, connection closed in the end; or (a quarter of the rest) a burst of 2-3 application messages in one read handled by an application that takes 0.3-2 intervals per callback, then silence, with the order in which the session loop serves its ready sources fixed per run by the simulator - OnLogout by 2.4 intervals after the last callback returned; or (HeartBtInt up to 10 s) a session held up again and again (inbound callbacks of 0.5-1.1 intervals, slow ToAdmin) facing a counterparty that sends a Heartbeat every 0.4-1 intervals and answers every TestRequest at once - no dead-peer disconnect earlier than 1.2 intervals after the TestRequest reached the wire, none within 1.2 intervals of a message handed to the application. Non-trivial: at least one timer-driven write (Heartbeat or TestRequest) happened or a TestRequest was answered; distinct: canonical trace hash"})
 }
 
 type kaEvent struct {
